@@ -524,6 +524,12 @@ func wktPoints(r *rand.Rand, style, max int, nonEmpty bool) []orb.Point {
 // wktGenGeom draws a geometry of any of the nine kinds.  Empty members of multi-geometries are rare
 // (1 in 8 per value) so that most values are inside the class where the round trip holds.
 func wktGenGeom(r *rand.Rand, style int, depth int) orb.Geometry {
+	return wktGenGeomD(r, style, depth, 2)
+}
+
+// wktGenGeomD: collections occur at depths < maxDepth (maxDepth = 2 is the historical shape: a
+// collection of collections of non-collections).
+func wktGenGeomD(r *rand.Rand, style int, depth int, maxDepth int) orb.Geometry {
 	emptyOK := r.Intn(8) == 0
 	pts := func() []orb.Point { return wktPoints(r, style, 5, !emptyOK) }
 	poly := func() orb.Polygon {
@@ -538,7 +544,10 @@ func wktGenGeom(r *rand.Rand, style int, depth int) orb.Geometry {
 		return p
 	}
 	k := r.Intn(9)
-	if k == 8 && depth >= 2 {
+	if k != 8 && depth > 0 && depth < maxDepth && maxDepth > 2 && r.Intn(4) == 0 {
+		k = 8 // deep mode: keep descending (a member is a collection with probability 1/3, not 1/9)
+	}
+	if k == 8 && depth >= maxDepth {
 		k = r.Intn(8)
 	}
 	switch k {
@@ -575,7 +584,7 @@ func wktGenGeom(r *rand.Rand, style int, depth int) orb.Geometry {
 		clean := r.Intn(2) == 0 // members that keep the collection inside the class that round-trips
 		for i := range c {
 			for {
-				c[i] = wktGenGeom(r, style, depth+1)
+				c[i] = wktGenGeomD(r, style, depth+1, maxDepth)
 				if !clean {
 					break
 				}
@@ -590,6 +599,46 @@ func wktGenGeom(r *rand.Rand, style int, depth int) orb.Geometry {
 		}
 		return c
 	}
+}
+
+// wktDeepChain: a collection nested k levels deep (k+1 collection levels when the innermost value is
+// itself an empty collection), with non-collection siblings before and after the descending member
+// at every level and now and then a second, shallower branch.  The innermost value is a plain
+// geometry, an EMPTY value or an empty collection.
+func wktDeepChain(r *rand.Rand, style, k int) orb.Geometry {
+	sib := func() orb.Geometry { return wktGenGeomD(r, style, 1, 1) } // never a collection
+	if k <= 0 {
+		switch r.Intn(8) {
+		case 0:
+			return orb.Collection{}
+		case 1:
+			return orb.LineString{}
+		case 2:
+			return orb.MultiPolygon{}
+		default:
+			return sib()
+		}
+	}
+	var c orb.Collection
+	for i := r.Intn(2); i > 0; i-- {
+		c = append(c, sib())
+	}
+	c = append(c, wktDeepChain(r, style, k-1))
+	if r.Intn(6) == 0 {
+		c = append(c, wktDeepChain(r, style, r.Intn(k)))
+	}
+	for i := r.Intn(2); i > 0; i-- {
+		c = append(c, sib())
+	}
+	return c
+}
+
+// wktNest wraps g in k collections, g being the only member at every level.
+func wktNest(g orb.Geometry, k int) orb.Geometry {
+	for ; k > 0; k-- {
+		g = orb.Collection{g}
+	}
+	return g
 }
 
 func wktTopNil(r *rand.Rand) orb.Geometry {
@@ -664,6 +713,16 @@ func genC04(c *Ctx) {
 			orb.Point{1e21, 2e-7}, orb.Point{math.MaxFloat64, 5e-324}, orb.Point{math.Copysign(0, -1), 0},
 			orb.Collection{orb.Point{1, 2}, orb.LineString{{3, 4}, {5, 6}}, orb.Polygon{{{0, 0}, {1, 0}, {1, 1}, {0, 0}}}, orb.MultiPolygon{{{{0, 0}, {1, 0}, {0, 0}}}, {{{5, 5}, {6, 6}}}}},
 			orb.Bound{Min: orb.Point{1, 2}, Max: orb.Point{3, 4}},
+			// collections nested deeper than two levels (3, 4, 5, 12 and 40 levels), with members after the
+			// nested one, exponent-form coordinates, EMPTY values and multi-polygons (commas at parenthesis
+			// depth 3 of their own) at the bottom
+			wktNest(orb.Point{1, 2}, 3), wktNest(orb.Point{1e21, 2e-7}, 4), wktNest(orb.Collection{}, 3), wktNest(orb.LineString{}, 5),
+			wktNest(orb.MultiPolygon{{{{0, 0}, {1, 0}, {0, 0}}}, {{{5, 5}, {6, 6}}, {{7, 7}, {8, 8}}}}, 3),
+			wktNest(orb.MultiPolygon{{{{0, 0}, {1, 0}, {0, 0}}}, {{{5, 5}, {6, 6}}}}, 4),
+			wktNest(orb.MultiPoint{{1, 2}, {3, 4}}, 12), wktNest(orb.Point{1, 2}, 40),
+			orb.Collection{orb.Point{1, 2}, orb.Collection{orb.Point{3, 4}, orb.Collection{orb.Point{5, 6}, orb.Collection{orb.Point{7, 8}, orb.LineString{{1, 1}, {2, 2}}}, orb.Point{9, 10}}, orb.Polygon{}}, orb.Point{11, 12}},
+			orb.Collection{orb.Collection{orb.Collection{orb.Collection{orb.LineString{{1e21, 2}, {3, 4e-7}}, orb.Point{5, 6}}, orb.Collection{}}}, orb.MultiPoint{}},
+			wktNest(orb.Polygon{{}}, 3), wktNest(orb.MultiLineString{{}, {{1, 2}, {3, 4}}}, 4),
 		} {
 			rt(g)
 			if g != nil {
@@ -675,14 +734,48 @@ func genC04(c *Ctx) {
 	for k := 0; k < n && !c.Exhausted(); k++ {
 		style := r.Intn(3)
 		var g orb.Geometry
-		if r.Intn(40) == 0 {
+		switch x := r.Intn(40); {
+		case x == 0:
 			g = wktTopNil(r)
-		} else {
+		case x < 7:
+			// collections nested deeper than two levels.  Three in four of these values are kept free of
+			// `()` members (re-drawn otherwise) so that the round trip is judged positively at depth.
+			for try := 0; ; try++ {
+				if x < 4 { // 3..6 (now and then up to 12) levels: one descending chain with siblings
+					k := 3 + r.Intn(4)
+					if r.Intn(4) == 0 {
+						k = 7 + r.Intn(6)
+					}
+					g = wktDeepChain(r, style, k)
+				} else { // bushy nesting up to depth 3..5
+					g = wktGenGeomD(r, style, 0, 3+r.Intn(3))
+				}
+				if s, _ := wktMarshalGuarded(g); !strings.Contains(s, "()") || try >= 8 || r.Intn(4) == 0 {
+					break
+				}
+			}
+		default:
 			g = wktGenGeom(r, style, 0)
 		}
 		rt(g)
 		if g != nil {
 			c.Case("respell", wktRespellInput(r, g, r.Intn(2) == 0))
+		}
+	}
+	// `<KEYWORD><blanks>EMPTY` with anything but exactly one space in between: outside the property's
+	// quantifier (its re-spellings put blanks next to commas, parentheses and at the ends only).  The code
+	// answers ErrNotWKT (theorem `empty_form_needs_single_space`); compared with the model here.
+	if c.Shard == 0 {
+		for _, kw := range []string{"MULTIPOINT", "LINESTRING", "MULTILINESTRING", "POLYGON", "MULTIPOLYGON", "GEOMETRYCOLLECTION", "POINT"} {
+			for _, sep := range []string{" ", "", "  ", "\t", "\n", " \t", "\t ", "   ", "\n\n"} {
+				for _, e := range []string{"EMPTY", "empty", "Empty"} {
+					for _, k := range []string{kw, strings.ToLower(kw)} {
+						c.Case("parse", wktHostileInput(k+sep+e))
+						c.Case("parse", wktHostileInput(" "+k+sep+e+"\n"))
+						c.Case("parse", wktHostileInput("GEOMETRYCOLLECTION("+k+sep+e+",POINT(1 2))"))
+					}
+				}
+			}
 		}
 	}
 	// the hostile stream of C05, here compared outcome by outcome (no allocation measurement)
